@@ -457,6 +457,9 @@ def judge(w, plan, kinds, speakers, hj, ht, render_log, planted, violations, pro
             if not ln:
                 continue
             probes['text_lines'] = probes.get('text_lines', 0) + 1
+            if ' object at 0x' in ln:
+                violations.append(viol('C13/unrendered-object', f'API v4 text helper: a Python object was written instead of its rendering: {ln[:260]!r}', version=4))
+                return
             bc = bad_char(ln)
             if bc:
                 violations.append(viol('C13/text-control-character', f'API v4 text helper: control character or line break {bc} in: {ln[:260]!r}', version=4, char=bc))
